@@ -180,7 +180,7 @@ class Line(object):
         return '<L%s ind=%s %r>' % (self.tline, self.indent, self.text)
 
 
-def skeleton(fn, indent_name='indent', env=None):
+def skeleton(fn, indent_name='indent', env=None, choose=None):
     """All-branches-taken shape of the text emitted by template function ``fn``.
 
     Returns list of Line.  Placeholders ``\x00k\x00`` in the text stand for the
@@ -242,8 +242,24 @@ def skeleton(fn, indent_name='indent', env=None):
                     cur['tline'] = None
                     mark(s, guards, loops)
                     ind = 4 * lvl if lvl is not None else -1
-                    lines.append(Line(ind, '\x000\x00', [e.args[0]], s.lineno, tuple(guards), tuple(loops)))
-                    lines[-1].exprs = [e.args[0]]
+                    a0 = e.args[0]
+                    lit, lex = None, []
+                    if isinstance(a0, ast.Constant) and isinstance(a0.value, str):
+                        lit = a0.value
+                    elif isinstance(a0, ast.BinOp) and isinstance(a0.op, ast.Mod) and isinstance(a0.left, ast.Constant) \
+                            and isinstance(a0.left.value, str) and '\n' not in a0.left.value:
+                        # 'literal %s text' % expr : literal text with spliced expressions
+                        parts = a0.left.value.split('%s')
+                        ops = list(a0.right.elts) if isinstance(a0.right, ast.Tuple) else [a0.right]
+                        if len(parts) == len(ops) + 1:
+                            lit = parts[0]
+                            for k, o in enumerate(ops):
+                                lit += '\x00%d\x00' % k + parts[k + 1]
+                            lex = ops
+                    if lit is not None and '\n' not in lit:
+                        lines.append(Line(ind, lit.strip(), lex, s.lineno, tuple(guards), tuple(loops)))
+                    else:
+                        lines.append(Line(ind, '\x000\x00', [a0], s.lineno, tuple(guards), tuple(loops)))
                     cur['tline'] = None
                     cur['guards'] = None
                     cur['loops'] = None
@@ -252,8 +268,10 @@ def skeleton(fn, indent_name='indent', env=None):
                     cur['text'] += '\x00%d\x00' % len(cur['exprs'])
                     cur['exprs'].append(e)
             elif isinstance(s, ast.If):
-                walk(s.body, guards + [s.test], loops)
-                if s.orelse:
+                pick = choose(s.test) if choose is not None else None
+                if pick is None or pick:
+                    walk(s.body, guards + [s.test], loops)
+                if s.orelse and (pick is None or not pick):
                     walk(s.orelse, guards + [ast.UnaryOp(op=ast.Not(), operand=s.test)], loops)
             elif isinstance(s, ast.For):
                 walk(s.body, guards, loops + [s])
@@ -315,11 +333,17 @@ def skeleton_source(lines, placeholder='__E%d_%d__'):
     table maps identifier -> (Line, expression ast)."""
     out = []
     table = {}
+    code = [i for i, l in enumerate(lines) if l.indent >= 0 and not l.text.lstrip().startswith('#')]
+    nxt = dict((a, b) for a, b in zip(code, code[1:]))
     for li, l in enumerate(lines):
         t = l.text
         for k, e in enumerate(l.exprs):
             ident = placeholder % (li, k)
             table[ident] = (l, e)
             t = t.replace('\x00%d\x00' % k, ident)
+        # a spliced block that is followed by deeper text emits a block header (e.g. `while True:`)
+        if li in nxt and lines[nxt[li]].indent > l.indent and not t.rstrip().endswith(':') and len(l.exprs) == 1 \
+                and l.text.strip() == '\x000\x00':
+            t = 'with %s:' % t.strip()
         out.append(' ' * max(l.indent, 0) + t)
     return '\n'.join(out) + '\n', table
